@@ -1,9 +1,12 @@
 """C17 -- multi-file models load each file once per load and share element identity.
 
 (M)    spec/LoaderRepo.tla model-checked over every import graph of the family FamC17
-       (MC_LoaderRepo.tla: cycles, diamonds, self-imports, glob statements) x provider kind x
-       global repository on/off x builtin models / shared names x repeated and pre-cached loads;
-       invariants C17_OpenOnce, C17_OpensCreated, C17_Identity, C17_CacheSame (+ the others);
+       (EnumLoaderRepo.tla: cycles, diamonds, self-imports, glob statements) x provider kind x
+       global repository on/off x builtin models / shared names x repeated and pre-cached loads; plus
+       closures over two registered languages (repositories absent, separate or shared; a file cached
+       by a direct load before/after a model of the other language imports it) and string main models
+       under GlobalRepo providers;
+       invariants C17_OpenOnce, C17_OpensCreated, C17_CachedNotOpened, C17_Identity, C17_CacheSame (+ the others);
 (S->I) every scenario rendered as a directory of model files and loaded with the real textX; opens,
        repositories, identities of all reference targets compared with the behaviours TLC printed;
 (I->S) seeded-random bigger scenarios (3-6 files) recorded as event traces and validated by TLC
@@ -39,9 +42,11 @@ META = dict(
                 "all reference targets and cache hits in every reachable state of every import graph of the bounded "
                 "family; every scenario is replayed against the real loader and seeded-random sessions recorded from "
                 "the real loader are validated by TLC as behaviours of the specification."),
-    level_note=("Bounded: <= 3 files exhaustively (quick: 3-file graphs without glob statement / self-import of "
+    level_note=("Bounded: one language: <= 3 files exhaustively (quick: 3-file graphs without glob statement / self-import of "
                 "non-main files), 3-6 files seeded-random; six provider kinds (PlainNameImportURI, FQNImportURI, "
                 "PlainNameImportURI with search path, RREL +m:, PlainNameGlobalRepo, FQNGlobalRepo). Lookup order "
-                "among several loaded models defining the same name is left open."),
+                "among several loaded models defining the same name is left open. Two languages (two metamodels, file "
+                "dispatch through the language registry): 2-3 files, repositories absent / separate / one shared "
+                "object, a file cached by a direct load before or after models of the other language import it."),
     technique="TLC model checking of LoaderRepo.tla + scenario replay against TLC-printed behaviours + TLC trace validation",
 )
